@@ -381,7 +381,8 @@ func ruleC02OnePerRow(c *Ctx) {
 			nArr++
 			// an inner array's result was produced (filtered and projected) by its own copy of the query in
 			// exec: it is passed through as it is; projecting it again would apply the select list twice
-			passThrough := appended != nil && appended.Op == "varargs" && len(appended.Args) == 1 && appended.Args[0].Op == "ext" && appended.Args[0].Args[0].Op == "assertok" && elemOfLoop(appended.Args[0], lp)
+			passThrough := appended != nil && appended.Op == "varargs" && len(appended.Args) == 1 && elemOfLoop(appended.Args[0], lp) &&
+				!appended.Args[0].Contains(func(x *Term) bool { return x.Op == "call" && c.P.Func(modPath, strings.TrimPrefix(x.Name, "")) != nil })
 			if recCall != nil || projCall != nil {
 				why = append(why, "the []any arm projects the rows of an inner result again (the select list is applied twice: aliases and computed columns become NULL)")
 			} else if !passThrough {
